@@ -717,7 +717,8 @@ class BaseTask(object, metaclass=abc.ABCMeta):
             if step_time < len(self.state_record_list):
                 if step_time == 0:
                     self.remaining_work_amount_record_list.insert(
-                        self.default_work_amount * (1.0 - self.default_progress)
+                        step_time,
+                        self.default_work_amount * (1.0 - self.default_progress),
                     )
                     self.allocated_worker_id_record.insert(step_time, None)
                     self.allocated_facility_id_record.insert(step_time, None)
